@@ -9,8 +9,8 @@ META = {
     "level": "translation_validation",
     "engine": "vm",
     "technique": "TLA+ spec PolicyLang (reference evaluator Eval/Exec + typed grammar-derivation generator) explored with TLC; every generated program replayed through parser -> compiler -> VM and compared with the spec's outcome (spec->impl conformance, spec as oracle)",
-    "text": "TLC enumerates every production of the typed grammar over every combination of atoms (expression depth 1: constants 0, +-1, i64::MIN, i64::MAX, parameters, literals of each type) and every statement form (let, check, debug_assert, if/else-if/else, match with bindings/default) and samples deeper derivations (depth 3, statement depth 2) by seeded simulation; for each program Eval gives the expected value or panic for a family of argument tuples including the i64 boundaries. The engine renders the tree to policy text, batches 200 functions per document, compiles with the real compiler and enters each function in the real VM; VIOLATION iff exit reason or returned value differ from Eval. TLC also checks the spec itself: generated programs are well typed, never stuck, results have the declared type, and the derivation actions agree with the set-valued grammar Exprs (count equality).",
-    "note": "Bounds: depth 1 exhaustive per root type (quick: int, bool, option[int], struct P; thorough: all 13 types), statement depth 1 (thorough 2 by simulation), simulation 300 (thorough 4000) derivations of depth <= 3; <= 16 argument tuples per program (full product when it fits, a diagonal family otherwise). Trusted: the renderer (parenthesises every sub-expression, so operator precedence of the parser is not exercised), the spec's reading of the language (policy book semantics as implemented by the documented compiler behaviour), value conversion in the engine. Programs the compiler rejects are counted, never an alarm; the check fails as a tool error if more than 2% of spec-typed programs are rejected.",
+    "text": "TLC enumerates every production of the typed grammar over every combination of atoms (expression depth 1: constants 0, +-1, i64::MIN, i64::MAX, parameters, literals of each type) and every statement form (let, check, debug_assert, if/else-if/else, match with bindings/default) every depth-2 nest of operators (outer operator x inner operator x side: the precedence/associativity table) and samples deeper derivations (depth 3, statement depth 2) by seeded simulation; for each program Eval gives the expected value or panic for a family of argument tuples including the i64 boundaries. The engine renders the tree to policy text, batches 200 functions per document, compiles with the real compiler and enters each function in the real VM; VIOLATION iff exit reason or returned value differ from Eval. TLC also checks the spec itself: generated programs are well typed, never stuck, results have the declared type, and the derivation actions agree with the set-valued grammar Exprs (count equality).",
+    "note": "Bounds: depth 1 exhaustive per root type (quick: int, bool, option[int], struct P; thorough: all 13 types), statement depth 1 (thorough 2 by simulation), simulation 150 (thorough 2000) derivations of depth <= 3; <= 16 argument tuples per program (full product when it fits, a diagonal family otherwise). Trusted: the renderer (full parentheses, and a second pass with minimal parentheses according to the documented precedence table), the spec's reading of the language (policy book semantics as implemented by the documented compiler behaviour), value conversion in the engine. Programs the compiler rejects are counted, never an alarm; the check fails as a tool error if more than 2% of spec-typed programs are rejected.",
 }
 
 
@@ -31,7 +31,9 @@ def run(ctx):
     _, progs2, _ = vm_util.generate(ctx, "MC_PolicyLang_stmt.cfg", subst=sub)
     vm_util.require_ops(ctx, progs2, vm_util.STMT_OPS, "stmt")
     runs.append(("stmt", progs2))
-    _, progs3, _ = vm_util.generate(ctx, "MC_PolicyLang_sim.cfg", simulate=4000 if ctx.thorough else 150, depth=400)
+    _, progs4, _ = vm_util.generate(ctx, "MC_PolicyLang_prec.cfg")
+    runs.append(("prec", progs4))
+    _, progs3, _ = vm_util.generate(ctx, "MC_PolicyLang_sim.cfg", simulate=2000 if ctx.thorough else 150, depth=400)
     runs.append(("sim", progs3))
     total = 0
     allres = []
@@ -41,6 +43,15 @@ def run(ctx):
         ctx.absorb(res)
         allres += res
         total += len(ps)
+    # the same trees written with only the parentheses the documented precedence requires:
+    # the parser's precedence/associativity table becomes part of the conformance
+    for tag, ps in runs:
+        if tag in ("depth1", "sim", "prec"):
+            res = vm_util.replay(ctx, vh, "C22", pre, ps, tag + "-minparens", parens="min")
+            vm_util.check_rejection_rate(ctx, res)
+            ctx.absorb(res)
+            allres += res
+    vm_util.finish_rejection(ctx)
     t = vm_util.tally(allres)
     ctx.cov.update({
         "programs": t["ran"],
@@ -53,7 +64,7 @@ def run(ctx):
         "selftest": vm_util.selftest(ctx, vh, "C22", pre, progs),
     })
     ctx.assumptions += [
-        "every sub-expression is parenthesised when rendered: the parser's operator precedence is not exercised",
+        "each tree is rendered fully parenthesised and (depth 1, simulation) with minimal parentheses per the documented precedence: or < &&,|| < ==,!= < <,>,<=,>=,is < ! < substruct,as < .field",
         "a program rejected by the real parser/compiler is skipped and counted (the property speaks about accepted programs)",
         "int values are a*2^63+b with small b: arithmetic is exact near 0, i64::MIN and i64::MAX only",
     ]
